@@ -11,6 +11,7 @@ RULE = ("each case takes a multi-chain structure (1HPX, 3SGB, 4DFR as shipped, a
         "Non-trivial: >= 2 chain ids in the file, the subset is proper, and the selected part has "
         ">= 2 titratable groups; distinct = distinct (structure digest, subset)."
         " Options are also given in another order than the chains of the file and a chain may be named twice.")
+RULE = RULE + ' Round 12: -c combined with -i lists naming residues inside, outside or only outside the selection.'
 ASSUMPTIONS = ["both runs see the same atom records in the same order, so exact equality is demanded"]
 TIMEOUT = {"quick": 1800, "thorough": 10800}
 
